@@ -1,7 +1,8 @@
 (* ClassTableChecks.v -- reflective obligations over the class table that harness/gen_tables.py regenerates
-   from the source tree on every run (T-GEN).  A change to dask-expr that adds an ambiguous name head,
-   switches on a generic rewrite flag for a class that is not on the reviewed list, or makes a graph/meta
-   method read process-global state breaks one of the lemmas below (the proof is a computation over the
+   from the source tree on every run (T-GEN).  This file: helpers and the name-head obligation of C08; the obligations of other properties are in
+   ClassTableFilterFlags.v (C03), ClassTableLengthFlags.v (C06), ClassTableDivisions.v (C06), ClassTableState.v (C15/C16), so that
+   a broken obligation breaks only the check of its own property.  A change to dask-expr that adds an ambiguous name head
+   breaks the lemma below (the proof is a computation over the
    generated table, so it is re-checked against what the code says now). *)
 From Coq Require Import String List Bool.
 From DX Require Import GeneratedClassTable.
@@ -61,39 +62,3 @@ Definition heads_unambiguous_b : bool :=
 Lemma heads_unambiguous : heads_unambiguous_b = true.
 Proof. vm_compute. reflexivity. Qed.
 
-(* ---- C03 / C06: classes that switch on a generic rewrite through a flag ----------------------- *)
-(* filter pass-through: the filter may be evaluated below the operator.  Reviewed classes: value- and
-   row-identity preserving operators (copy, rename of axis/series, string-storage conversion, to_frame),
-   row rearrangements (repartition, shuffles, sorts) for row-wise predicates, Filter itself (squash schema S10),
-   AsType (guarded by the lossless-cast test), ResetIndex / ToTimestamp (index only), parquet reader (dnf_sound). *)
-Definition filter_passthrough_reviewed : list string := [
-  "AddPrefixSeries"; "AddSuffixSeries"; "ArrowStringConversion"; "AsType"; "Filter"; "FilterAlign"; "RenameAxis"; "RenameSeries";
-  "ResetIndex"; "ToFrame"; "ToFrameIndex"; "ToSeriesIndex"; "ToTimestamp"; "_DeepCopy";
-  "Repartition"; "RepartitionDivisions"; "RepartitionFreq"; "RepartitionSize"; "RepartitionToFewer"; "RepartitionToMore";
-  "DiskShuffle"; "P2PShuffle"; "RearrangeByColumn"; "SetIndex"; "SetPartition"; "Shuffle"; "ShuffleBase"; "SimpleShuffle"; "SortValues"; "TaskShuffle";
-  "ReadParquetPyarrowFS" ].
-Definition filter_flags_b : bool :=
-  forallb (fun c => negb (c_filter_passthrough c) || mems (c_name c) filter_passthrough_reviewed) class_table.
-Lemma filter_flags_reviewed : filter_flags_b = true.
-Proof. vm_compute. reflexivity. Qed.
-
-(* length preservation (len() answered through the operator): every Elemwise class, plus these *)
-Definition length_preserving_reviewed : list string := [
-  "Repartition"; "RepartitionDivisions"; "RepartitionFreq"; "RepartitionSize"; "RepartitionToFewer"; "RepartitionToMore";
-  "BaseSetIndexSortValues"; "DiskShuffle"; "P2PShuffle"; "RearrangeByColumn"; "SetIndex"; "SetIndexBlockwise"; "SetPartition"; "Shuffle"; "ShuffleBase";
-  "SimpleShuffle"; "SortIndexBlockwise"; "SortValues"; "SortValuesBlockwise"; "TaskShuffle"; "_SetIndexPost"; "_SetPartitionsPreSetIndex" ].
-Definition length_flags_b : bool :=
-  forallb (fun c => negb (c_length_preserving c) || c_elemwise c || mems (c_name c) length_preserving_reviewed) class_table.
-Lemma length_flags_reviewed : length_flags_b = true.
-Proof. vm_compute. reflexivity. Qed.
-
-(* ---- C15 / C16: reads of process-global mutable state in graph / meta / divisions methods -------- *)
-(* allowed: reads with a recompute fallback (the cached-call pattern proved transparent in LRU.v) *)
-Definition global_reads_with_fallback : list (string * (string * string)) := [
-  ("ReadParquetFSSpec", ("_plan", "_cached_plan")) ].
-Definition read_ok (c : class_info) (r : string * string) : bool :=
-  existsb (fun a => String.eqb (fst a) (c_name c) && String.eqb (fst (snd a)) (fst r) && String.eqb (snd (snd a)) (snd r)) global_reads_with_fallback.
-Definition state_free_b : bool :=
-  forallb (fun c => forallb (read_ok c) (c_global_reads c)) class_table.
-Lemma state_free_table : state_free_b = true.
-Proof. vm_compute. reflexivity. Qed.
